@@ -75,7 +75,10 @@ def dollar_quote_literal(text: str) -> str:
     quote = '$$'
     qq = 0
 
-    while quote in text:
+    # The closing quote must be the first occurrence of the quote in
+    # `text + quote`: besides occurrences inside the text, this rules
+    # out one that straddles the end of the text (text ending in "$").
+    while (text + quote).find(quote) != len(text):
         if qq % 16 < 10:
             qq += 10 - qq % 16
 
